@@ -45,6 +45,8 @@ func modelTypeOf(v Value) (string, bool) {
 		return "zlib.reader", true
 	case *TeeObj:
 		return "io.teeReader", true
+	case *LimitObj:
+		return "*io.LimitedReader", true
 	case *HashObj:
 		return "hash.Hash", true
 	case *ScannerObj:
